@@ -25,6 +25,11 @@ def sha(t):
     return hashlib.sha256(t.encode()).hexdigest()[:16]
 
 
+def norm_sha(t):
+    """hash of source text modulo comments and white space (trusted-text lock: assumed functions, files outside the units)"""
+    return sha(re.sub(r'\s+', ' ', strip_comments(t)).strip())
+
+
 DROP_TRAIT_IMPLS = re.compile(
     r'^(?:core::fmt::|fmt::)?Debug$|^FromHex$|^(?:core::hash::)?Hash$|^Zeroize$|^ZeroizeOnDrop$|^DefaultIsZeroes$|^Drop$'
     r'|^serde::|^Serialize<|^Deserialize<|^(?:serde::)?(?:Serialize|Deserialize)\b')
@@ -420,7 +425,7 @@ class Unit:
         if im is not None:
             tybase = re.sub(r'<.*$', '', im.ty.strip().lstrip('&').strip()).split('::')[-1] + '::'
         vname = '::'.join([x for x in [self.cfg.get('crate_name', 'unit'), modpath.replace('::', '::')] if x]) + '::' + tybase + f.name
-        meta = dict(key=key, verus_name=vname, file=repo_rel, lines=[it.line, it.end_line], sha256_source=sha(it.text), mode=mode,
+        meta = dict(key=key, verus_name=vname, file=repo_rel, lines=[it.line, it.end_line], sha256_source=sha(it.text), norm_sha=norm_sha(it.text), mode=mode,
                     serves=(c.serves if c else []), rules=[], contract_file=(os.path.relpath(c.file, self.cfg['verif_root']) if c else None))
         self.functions.append(meta)
         if key in self.downgraded:
